@@ -146,8 +146,14 @@ where
                 // issues and reinitialize if an outdated value was set.
                 let initial_value = self.global_state.latest_value.load();
 
+                #[cfg(folo_verif)]
+                crate::__verif::point("with_in_region/latest-loaded");
+
                 let expected_generation = initial_value.generation;
                 let actual_generation = regional_state.initialize(&initial_value);
+
+                #[cfg(folo_verif)]
+                crate::__verif::point("with_in_region/initialized");
 
                 // The commit will fail if the generation of the value we set does not match
                 // the generation of the value that was initialized. We do not know which one
@@ -243,11 +249,17 @@ where
             .next_generation
             .fetch_add(1, atomic::Ordering::Relaxed);
 
+        #[cfg(folo_verif)]
+        crate::__verif::point("set_global/generation-taken");
+
         // The first thing we do is update the latest value in the global state. This ensures that
         // any new regional states that get initialized will get our latest updated value.
         self.global_state
             .latest_value
             .store(Arc::new(GenerationValue { generation, value }));
+
+        #[cfg(folo_verif)]
+        crate::__verif::point("set_global/published");
 
         // Now all we need to do is invalidate the current value in all regions.
         // Each region will reinitialize itself automatically on next access.
@@ -512,6 +524,9 @@ where
             });
 
             let new_value = RegionalValue::Ready(value.clone());
+
+            #[cfg(folo_verif)]
+            crate::__verif::point("initialize/cloned");
 
             // It is possible that another thread has assigned a new global value
             // while we are doing this, so our `value` is out of date already. We
